@@ -7,6 +7,7 @@ HARNESSES = {
     'hashmap_seq': {'san': 'asan'},
     'holders_seq': {'san': 'asan'},
     'unique_seq': {'san': 'asan'},
+    'bits_seq': {'san': 'asan'},
     # basic_string memcpy()s from a null buffer with length 0 (default-constructed strings): no listed property
     # speaks about zero-length copies, so UBSan's nonnull-attribute check is off for this harness (DESIGN.md 2.3)
     'string_seq': {'san': 'asan', 'cxxflags': ['-fno-sanitize=nonnull-attribute']},
@@ -141,5 +142,26 @@ PROPS['C17'] = {
 PROPS['C16']['runs'].append({'harness': 'holders_seq', 'quick': {'enum': True, 'rc': rc(1500, sizes=[40, 80])}, 'thorough': {'enum': True, 'rc': rc(30000, sizes=[40, 80, 160])}})
 PROPS['C16']['runs'].append({'harness': 'unique_seq', 'quick': {'rc': rc(1500, sizes=[40, 80])}, 'thorough': {'rc': rc(30000, sizes=[40, 80, 160])}})
 PROPS['C16']['required_tags'] += ['unique_ptr', 'unique_memory', 'battery', 'history', 'kind-8', 'tuple-2']
+
+PROPS['C18'] = {
+    'runs': [{'harness': 'bits_seq',
+              'quick': {'enum': True, 'rc': rc(6000, sizes=[40, 80, 160])},
+              'thorough': {'enum': True, 'rc': rc(120000, sizes=[40, 80, 160, 300]), 'fuzz': {'seconds': 120}}}],
+    'rule': 'bitset<N> for N in {1,2,7,8,31,32,33,63,64,65,100,127,128,129,191,192,193,255,256,257,300}: two sets placed in 0xA5-filled, canary-fenced '
+            'storage, histories of construct-from-integer (any 64-bit value), set/reset/flip/test, whole-set forms, operator[] proxies (= bool, = proxy of '
+            'the same/other set, ~, flip, conversion), &= |= ^= ~, << >> <<= >>= by 0..N+130 (word multiples, N-1..N+1, beyond N), binary & | ^, ==; '
+            'oracle: bit-by-bit equality with std::bitset<N> plus count/any/all/none after every operation, canaries. array<int,N> N in {1,2,3,8} at exact '
+            'heap size vs std::array (front/back/index/iteration/==/swap/get/array_concat of 2 and 3). mt19937 vs std::mt19937 (boundary + random seeds, '
+            '>= 1900 draws, re-seed mid-stream, default seed); pcg_basic32 vs an independent implementation of the published algorithm + the published '
+            'known-answer vector (42,54), bounded draws for boundary and random bounds. insertion_sort: permutation + no comp(earlier, later), all arrays '
+            'over {0,1,2} up to length 6 x 3 comparators exhaustively, random longer ones. Non-trivial (bitset): a shift by >= 64 or a multi-word N with a '
+            'non-zero result after a shift; (others) every generated case; distinct = hash of the decoded case.',
+    'required_tags': ['bitset-%d' % n for n in (1, 2, 7, 8, 31, 32, 33, 63, 64, 65, 100, 127, 128, 129, 191, 192, 193, 255, 256, 257, 300)] + ['array', 'mt19937', 'pcg32', 'pcg-known-answer', 'sort', 'ref-not', 'shift>=N'],
+    'min_cases': {'quick': 20000, 'thorough': 300000},
+    'level_text': 'differential testing against std::bitset/std::array/std::mt19937 and an independent pcg32, exhaustive small arrays for the sort; held on everything generated',
+    'level_note': 'trusts libstdc++ as reference and the published pcg32 known-answer vector; bits beyond N are observed only through count()/all()/==',
+    'technique': 'differential property testing against standard-library references (rapidcheck tapes, exhaustive small scopes, libFuzzer)',
+    'assumptions': ['bit indices < N', 'bound > 0', 'strict weak order comparators'],
+}
 
 NOT_APPLICABLE = {}
